@@ -5,6 +5,7 @@ mod explore;
 mod world;
 mod fw;
 mod interp;
+mod lattice;
 mod props;
 
 use fw::*;
